@@ -41,7 +41,7 @@ LP_KINDS = [  # positions created at pool price LP_PRICE: (lower tick, upper tic
 LP_FEES = {1: ("0.05", "0.7")}   # uncollected fees (WETH, oSQTH) an LP kind carries from earlier bars (set on the Position object)
 LP_PRICE = "0.1"
 W0 = D(100)
-Q0 = D(0)
+Q0 = D(5)
 TWAP_BARS = 7
 REL_FLOAT = Fraction(1, 10 ** 9)
 REL_DEC = Fraction(1, 10 ** 30)
